@@ -52,7 +52,7 @@ where
     }
 
     let source = self.source.clone();
-    let subject = self.subject.clone();
+    let subject = self.subject.emitter();
     let subscription = Arc::clone(&self.subscription);
 
     self.subject.set_on_subscribe(move |count| {
